@@ -349,6 +349,34 @@ fn run_adi(c: &CandleStream, st: &mut Stats) -> CaseResult {
 	Ok(())
 }
 
+// ---------------------------------------------------------------------------------------
+// bounded-exhaustive small scope
+
+/// Every stream of length <= 7 (thorough 9) over a four-letter alphabet with ties, a zero and both signs
+/// ({-1, 0, 1, 2}; {1, 2, 4, 8} for the methods that need positive inputs), windows 1..=4, every letter as
+/// construction value: exact repeats at lag n, returns to the construction value, windows crossing zero.
+fn exhaustive_small(tier: Tier, spec_index: usize) -> Box<dyn Iterator<Item = ValStream>> {
+	let spec = &specs()[spec_index];
+	let letters = if spec.dom == Domain::Positive { [1.0f64, 2.0, 4.0, 8.0] } else { [-1.0f64, 0.0, 1.0, 2.0] };
+	let maxl = tier.pick(7u32, 9);
+	let min_n = spec.min_n;
+	let mut out = Vec::new();
+	for l in 1..=maxl {
+		for code in 0..4u64.pow(l) {
+			let xs: Vec<f64> = (0..l).map(|k| letters[((code >> (2 * k)) & 3) as usize]).collect();
+			for n in 1..=4u32 {
+				if n < min_n {
+					continue;
+				}
+				// the first element (the documented usage) and one other letter as construction value
+				out.push(ValStream { n, init: xs[0], xs: xs.clone() });
+				out.push(ValStream { n, init: letters[((code as usize) + n as usize + 1) % 4], xs: xs.clone() });
+			}
+		}
+	}
+	Box::new(out.into_iter())
+}
+
 pub fn def(tier: Tier) -> PropertyDef {
 	let mut checks: Vec<Box<dyn SubCheck>> = Vec::new();
 	let max_len = tier.pick(512usize, 2048);
@@ -356,6 +384,10 @@ pub fn def(tier: Tier) -> PropertyDef {
 	for spec in specs() {
 		let (min_n, dom, name) = (spec.min_n, spec.dom, spec.name);
 		checks.push(pt(name, cases, gen::val_stream(min_n, max_len, dom, true), move |c: &ValStream, st| run_spec(&spec, c, st)));
+	}
+	for (i, spec) in specs().into_iter().enumerate() {
+		let name = spec.name;
+		checks.push(crate::engine::enumerate(&format!("exhaustive_small_{name}"), move |tier, _| exhaustive_small(tier, i), move |c: &ValStream, st| run_spec(&spec, c, st)));
 	}
 	// every length for the cheap single-accumulator kinds in thorough: handled by C15's impulse responses too
 	checks.push(pt("Conv", cases, conv_strategy(max_len), run_conv));
@@ -365,7 +397,7 @@ pub fn def(tier: Tier) -> PropertyDef {
 	PropertyDef {
 		id: "C02",
 		level: "exploration",
-		rule: "proptest: segment-built streams (iid, random walks, plateaus, monotone runs, spikes, 10^+-k scale jumps, sign flips, integer lattices, zero runs, alternations, saw-tooth) of up to 512 (thorough 2048) steps, stratified lengths 1..=254 with boundary weight, init = first element or an independent prehistory value; every step incl. warm-up compared two-sidedly with the from-scratch formula on the padded history inside the allowance K*eps*(n+t)*M_t*g of DESIGN 4.2. Non-trivial = stream longer than 2n with >= 3 distinct values (the window was completely replaced at least once); distinct by hash(method, n, init, stream).",
+		rule: "Bounded-exhaustive (exhaustive_small_*): every stream of length <= 7 (thorough 9) over {-1,0,1,2} ({1,2,4,8} for positive-input methods), windows 1..=4, two construction values, for each of the 16 value-input methods. proptest: segment-built streams (iid, random walks, plateaus, monotone runs, spikes, 10^+-k scale jumps, sign flips, integer lattices, zero runs, alternations, saw-tooth) of up to 512 (thorough 2048) steps, stratified lengths 1..=254 with boundary weight, init = first element or an independent prehistory value; every step incl. warm-up compared two-sidedly with the from-scratch formula on the padded history inside the allowance K*eps*(n+t)*M_t*g of DESIGN 4.2. Non-trivial = stream longer than 2n with >= 3 distinct values (the window was completely replaced at least once); distinct by hash(method, n, init, stream).",
 		assumptions: vec![
 			"magnitude domain |x| in {0} U [1e-6, 1e9] (DESIGN §3)".into(),
 			"allowance constant K = 256; ill-conditioned quotients (CCI with MAD within its allowance of 0, VWMA with volume sum within its allowance of 0) are exempt and counted".into(),
